@@ -8,7 +8,7 @@ from ..astutil import calls_in, norm_stmt, path_of, unparse, walk_scope, walk_st
 from ..cfg import own_exprs
 from ..facts import Fact, atoms, enumerate_paths
 from ..report import Ctx
-from .common import always_before, guard, holds_with_callers, increment_of, method_callers, need, node_of, protocol_schema, stmts_matching
+from .common import always_before, expand, guard, holds_with_callers, increment_of, method_callers, need, node_of, protocol_schema, single_defs, stmts_matching
 
 RAFT = "happysimulator/components/consensus/raft.py"
 LOG = "happysimulator/components/consensus/log.py"
@@ -36,6 +36,42 @@ def rule_network_dependency(ctx: Ctx) -> None:
     from .c06 import partition_handle_rules
 
     partition_handle_rules(ctx, "C11-9")
+
+
+def rule_append_entries_carry_the_suffix(ctx: Ctx) -> None:
+    """C11-10: a follower bounds its commit index by `min(leader_commit, last_index)` — its *whole* log, not the last entry the message
+    verified.  That is sound only because every AppendEntries carries the full suffix after `prev_log_index`, so a follower that passes the
+    consistency check ends up with exactly the leader's log.  Hence: every send of a RaftAppendEntries message fills `entries` from
+    `self._log.entries_after(<the prev_log_index it sends>)` — or the follower bounds the commit by the last entry of the message instead."""
+    prog = ctx.prog
+    node = prog.cls(RAFT, "RaftNode")
+    hae = node.methods["_handle_append_entries"]
+    sdh = single_defs(hae)
+    bounds = [expand(c, sdh) for c in calls_in(hae.node) if path_of(c.func) == "min" and any("leader_commit" in unparse(a) for a in c.args)]
+    by_message = bool(bounds) and all(any("prev_log_index" in unparse(a) and "len(entries)" in unparse(a).replace(" ", "") for a in b.args) for b in bounds)
+    n = 0
+    for m in node.methods.values():
+        sd = None
+        for c in calls_in(m.node):
+            if path_of(c.func) != "self._network.send" or not any(k.arg == "event_type" and isinstance(k.value, ast.Constant) and k.value.value == "RaftAppendEntries" for k in c.keywords):
+                continue
+            n += 1
+            sd = sd or single_defs(m)
+            pay = next((k.value for k in c.keywords if k.arg == "payload"), None)
+            fields = {k_.value: v_ for k_, v_ in zip(pay.keys, pay.values) if isinstance(k_, ast.Constant)} if isinstance(pay, ast.Dict) else {}
+            ent = expand(fields.get("entries"), sd) if fields.get("entries") is not None else None
+            prev = unparse(expand(fields["prev_log_index"], sd)).replace(" ", "") if "prev_log_index" in fields else None
+            src = None
+            if isinstance(ent, ast.ListComp) and len(ent.generators) == 1 and not ent.generators[0].ifs:
+                src = expand(ent.generators[0].iter, sd)
+            elif isinstance(ent, ast.Call):
+                src = ent
+            full = isinstance(src, ast.Call) and path_of(src.func) == "self._log.entries_after" and prev is not None and [unparse(a).replace(" ", "") for a in src.args] == [prev]
+            ctx.ob("C11-10", "G6", m, c, full or by_message,
+                   f"{m.qual}: an AppendEntries carries every entry after the prev_log_index it names (`entries` is built from `self._log.entries_after({prev})`): the follower's "
+                   "commit bound min(leader_commit, last_index) covers its whole log, which equals the leader's only if the message brought the full suffix")
+    need(n >= 2, f"C11-10: expected >= 2 RaftAppendEntries send sites (heartbeat and back-off retry), found {n}")
+    ctx.floor("C11-10", 2)
 
 
 def rule_hunted(ctx: Ctx) -> None:
@@ -350,11 +386,13 @@ def run(ctx: Ctx) -> None:
     ctx.guarded(rule_round2)
     ctx.guarded(rule_hunted)
     ctx.guarded(rule_network_dependency)
+    ctx.guarded(rule_append_entries_carry_the_suffix)
     for r, k in (("C11-1", 4), ("C11-2", 2), ("C11-3", 6), ("C11-4", 3), ("C11-5", 5), ("C11-6", 3), ("C11-7", 6), ("C11-8", 2), ("C11-9", 1)):
         ctx.floor(r, k)
 
 
 MUTANTS = [
+    ("backoff-probe-without-entries-keeps-leader-commit", RAFT, ["                    \"entries\": entry_dicts,\n                    \"leader_commit\": self._log.commit_index,\n                },\n                daemon=True,\n            )\n            return [msg]"], ["                    \"entries\": [],\n                    \"leader_commit\": self._log.commit_index,\n                },\n                daemon=True,\n            )\n            return [msg]"], "C11-10"),
     ("raft-falsy-state-machine-discarded", RAFT, "state_machine if state_machine is not None else KVStateMachine()", "state_machine or KVStateMachine()", "C11-6"),
     ("deposed-leader-gets-no-timer", RAFT, "        if vote_granted or deposed:", "        if vote_granted:", "C11-3"),
     ("tally-closed-form-strict", RAFT, '            count = 1  # self\n            for match_idx in self._match_index.values():\n                if match_idx >= n:\n                    count += 1\n', '            count = 1 + sum(1 for m in self._match_index.values() if m > n)\n', "C11-4"),
